@@ -161,6 +161,10 @@ pub fn fuzz(seed: u64, calls: u64) {
             // the machine can be read and stepped further
             let after = catch_unwind(AssertUnwindSafe(|| {
                 let _ = machine_json(&m, false);
+                // the state can also be read through its Debug rendering (what a log line or an assertion message does)
+                if n % 29 == 0 || m.bus().memory()[0xEF] != 0 || m.bus().memory()[0] != 0 {
+                    let _ = format!("{:?}", m);
+                }
                 let mut c = m.clone();
                 c.raw_mut().trigger_clock_edge();
                 let _ = c.state();
